@@ -326,7 +326,7 @@ class Builder:
 					attrs.append(f'@sort_key({key})')
 					self.note(f'sort_key:{key_kind}')
 		self.note(f'array:counted:{kind}')
-		lines = [Line(f'{count} = uint{8 * self.rng.choice([1, 2, 4, 4])}'), Line(f'{member} = array({element}, {count})', attrs=attrs)]
+		lines = [Line(f'{count} = uint{8 * self.rng.choice([1, 2, 4, 4, 8])}'), Line(f'{member} = array({element}, {count})', attrs=attrs)]
 		lines[1].element = info
 		return lines
 
@@ -760,7 +760,7 @@ def generate_once(rng, index, small=False, forced=4):
 			# MultisigTransactionV1 style: a child embeds the size-implicit twin family through sizeof (the twin's own children may recurse once)
 			inner = builder.g_sizeof(nem_twin.name, abstract=True)
 			tail = builder.g_counted() if rng.randrange(2) else []
-			builder.add_children([nem_family], 1, body_forms, force_bodies=[()], tails=[inner + tail])
+			builder.add_children([nem_family, nem_twin] if rng.randrange(2) else [nem_family], 1, body_forms, force_bodies=[()], tails=[inner + tail])
 		implicit_children = [name for family, name, implicit in made if implicit]
 		if implicit_children and rng.randrange(2):
 			# SizePrefixedCosignatureV1 style: a concrete size-implicit child behind a sizeof member
@@ -772,7 +772,7 @@ def generate_once(rng, index, small=False, forced=4):
 	if symbol_family:
 		# receipts style needs children without arrays when the holder is not aligned (restriction 9)
 		receipts_unaligned = 'receipts' in features and rng.randrange(2) == 0
-		forms = [form for form in body_forms if form not in ('bytes', 'counted', 'named_inline')] if receipts_unaligned else body_forms + ['union']
+		forms = [form for form in body_forms if form not in ('bytes', 'counted', 'named_inline')] if receipts_unaligned else body_forms + ['union', 'optbytes']
 		# element structs of arrays in children of an aligned family must not be aligned-in-unaligned (children are aligned by inheritance)
 		builder.add_family(symbol_family)
 		if symbol_twin:
@@ -785,7 +785,7 @@ def generate_once(rng, index, small=False, forced=4):
 		fill_struct = None
 		if 'aggregate' in features:
 			# AggregateTransactionBody style: byte-sized aligned array of an abstract parent, then (optionally) a fill array of a plain struct
-			fill_struct = builder.add_plain_struct(force=[rng.choice(['alias', 'int'])], aligned=rng.randrange(2) == 1, members=rng.randrange(1, 3))
+			fill_struct = builder.add_plain_struct(force=[rng.choice(['alias', 'int', 'bytes', 'struct'])], aligned=rng.randrange(2) == 1, members=rng.randrange(1, 4))
 			member = builder.member_name(allow_special=False)
 			size_name = builder.member_name(rng.choice(['_size', '_bytes', '_length']), allow_special=False)
 			alignment = rng.choice([8, 8, 8, 4, 16])
